@@ -629,6 +629,73 @@ theorem explicit_option_base_permanent (pre : List Op) (b : Int)
     (optionBase_spec _ b).1 (Or.inl hu)
   exact explicit_base_persists st b (by simp [st, e]) (by simp [st, e, hd]) ops hn
 
+/-! ### which use comes first in a statement with several array references -/
+
+/-- first use of an undeclared array leaves exactly `withArray …` as the state, whether the access
+    itself passes the bounds check or not -/
+theorem checkDim_fresh_state (st : State) (hw : WF st) (name : Nat) (hf : find name st.arrs = none)
+    (idx : List Int) (hne : idx ≠ []) :
+    (checkDim st name idx).1 = withArray st name (autoDims idx.length) := by
+  have h := autodim_spec st hw name hf idx hne 0
+  simp only at h
+  obtain ⟨_, _, _, herr, hok⟩ := h
+  rw [← get_state]
+  cases hc : checkBounds st.b idx (autoDims idx.length) with
+  | some e => rw [(herr e hc).1]
+  | none =>
+    have hb0 : 0 ≤ st.b := by rcases hw.b01 with e | e <;> omega
+    rw [(hok ((bounds_ok_iff st.b hb0 idx _).1 hc)).1]
+
+/-- in `target(idx) = <right-hand side>` the target is the first use: an undeclared target array
+    exists afterwards with the rank of the left-hand side and maximum subscript 10 — whatever the
+    right-hand side does (raises an error, mentions the same array with another number of
+    subscripts, auto-dimensions other arrays) and whether or not the assignment succeeds -/
+theorem letFrom_target_first (st : State) (hw : WF st) (n : Nat) (hf : find n st.arrs = none)
+    (idx : List Int) (hne : idx ≠ []) (srcs : List (Nat × List Int)) (c : Int) (fail : Option Nat) :
+    ∃ a, find n (letFrom st n idx srcs c fail).1.arrs = some a ∧ a.dims = autoDims idx.length := by
+  have hs := checkDim_fresh_state st hw n hf idx hne
+  have h0 := (autodim_spec st hw n hf idx hne 0).1
+  unfold letFrom
+  split
+  · next st1 e he => rw [he] at hs; simp only at hs; rw [hs]; exact ⟨_, h0, rfl⟩
+  · next st1 a0 he =>
+    rw [he] at hs; simp only at hs
+    have h1 := h0
+    rw [← hs] at h1
+    have h2 := evalSrcs_keeps srcs st1 n _ h1
+    split
+    · next he2 => rw [he2] at h2; exact ⟨_, h2, rfl⟩
+    · next st2 v he2 =>
+      rw [he2] at h2
+      split
+      · exact ⟨_, h2, rfl⟩
+      · exact set_keeps_dims st2 n idx (v + c) n _ h2
+
+/-- same for SWAP: its first operand is used first -/
+theorem swap_first_operand_first (st : State) (hw : WF st) (n : Nat) (hf : find n st.arrs = none)
+    (idx : List Int) (hne : idx ≠ []) (m : Nat) (idx2 : List Int) :
+    ∃ a, find n (swap st n idx m idx2).1.arrs = some a ∧ a.dims = autoDims idx.length := by
+  have hs := checkDim_fresh_state st hw n hf idx hne
+  have h0 := (autodim_spec st hw n hf idx hne 0).1
+  unfold swap
+  split
+  · next st1 e he => rw [he] at hs; simp only at hs; rw [hs]; exact ⟨_, h0, rfl⟩
+  · next st1 a0 he =>
+    rw [he] at hs; simp only at hs
+    have h1 := h0
+    rw [← hs] at h1
+    have h2 := checkDim_keeps st1 m idx2 n _ h1
+    split
+    · next he2 => rw [he2] at h2; exact ⟨_, h2, rfl⟩
+    · next st2 b0 he2 =>
+      rw [he2] at h2
+      split
+      · next va vb _ _ =>
+        obtain ⟨a1, k1, d1⟩ := set_keeps_dims st2 n idx vb n _ h2
+        obtain ⟨a2, k2, d2⟩ := set_keeps_dims _ m idx2 va n a1 k1
+        exact ⟨a2, k2, by rw [d2, d1]⟩
+      · exact ⟨_, h2, rfl⟩
+
 /-! ### non-vacuity: the hypotheses used above are satisfiable, the model computes -/
 
 example : InBounds 1 [1, 4] [3, 4] := .cons (by omega) (by omega) (.cons (by omega) (by omega) .nil)
@@ -645,6 +712,9 @@ example : (run State.init [.dim [(0, [3])], .optionBase true, .erase [0], .optio
 example : (run State.init [.dim [(0, [3])], .erase [0], .optionBase true, .dim [(0, [3])], .erase [0],
       .dim [(0, [3])], .set 0 [0] 5, .dim [(1, [0])], .optionBase false]).2 =
     [.done, .done, .done, .done, .done, .done, .err 9, .err 9, .err 10] := by decide
+example : (letFrom State.init 0 [3] [(1, [11])] 0 none).2 = some 9 ∧
+    (allocate (letFrom State.init 0 [3] [(1, [11])] 0 none).1 0 [20]).2 = some 10 ∧
+    (letFrom State.init 2 [1] [(2, [1, 1])] 0 none).2 = some 9 := by decide
 example : ∃ st, WF st ∧ st.base = some 1 ∧ st.byDim = false ∧ st.arrs ≠ [] :=
   ⟨(run State.init [.optionBase true, .dim [(0, [3])]]).1, wf_reachable _, by decide, by decide, by decide⟩
 
